@@ -148,10 +148,16 @@ Definition sx_config (c : config_c) : sx :=
   Li [Bs (c_id c); At (c_threshold c); At (c_ecdsa c); At (c_elgamal c); At (c_P c); At (c_Q c);
       sx_opt Bs (c_rid c); sx_opt Bs (c_chain c); sx_list sx_pub (c_public c)].
 
-(* "cbor.config_unmarshal": #bytes -> outcome config      (primality: Miller-Rabin; ActOnBase: reference curve) *)
+(* "cbor.config_unmarshal": #bytes -> outcome config      (primality: Miller-Rabin; ActOnBase: reference curve)
+   the repaired code; "cbor.config_unmarshal_v0" is the code before fixes 8307514 / 3216d4d *)
 Definition op_cbor_config_unmarshal (arg : sx) : option sx :=
   match arg with
   | Bs b => Some (sx_outcome sx_config (config_unmarshal mr_prime base_mul b))
+  | _ => None end.
+
+Definition op_cbor_config_unmarshal_v0 (arg : sx) : option sx :=
+  match arg with
+  | Bs b => Some (sx_outcome sx_config (config_unmarshal_v0 mr_prime base_mul b))
   | _ => None end.
 
 (* "cbor.validate_prime": p -> bool *)
@@ -182,6 +188,8 @@ Definition cbor_ops : list (bytes * (sx -> option sx)) :=
     (cstr "cbor.point_encode", op_cbor_point_encode);
     (cstr "cbor.point_decode", op_cbor_point_decode);
     (cstr "cbor.config_unmarshal", op_cbor_config_unmarshal);
+    (cstr "cbor.config_unmarshal_v0", op_cbor_config_unmarshal_v0);
     (cstr "cbor.validate_prime", op_cbor_validate_prime);
+    (cstr "cbor.validate_prime_v0", fun arg => match arg with At p => Some (sx_bool (validate_prime_v0 mr_prime (Some p))) | _ => None end);
     (cstr "cbor.frost_unmarshal", op_cbor_frost_unmarshal);
     (cstr "cbor.utf8_valid", op_cbor_utf8_valid) ].
